@@ -59,5 +59,9 @@ func TestDev(t *testing.T) {
 			fmt.Printf("%6d  %s\n        seed %d: %s\n", keys[k], k, r.Seed, r.Violation.Detail)
 		}
 		fmt.Printf("runs=%d nontrivial=%d inconclusive=%d\nprobes=%v\nfaults=%v\n", n, nontriv, inconcl, probes, faults)
+		if poisoned() { // a hang left goroutines behind: the bubble cannot end
+			fmt.Printf("hangs=%d (process poisoned; leaving)\n", hangsSeen)
+			os.Exit(0)
+		}
 	})
 }
